@@ -40,5 +40,6 @@ def replay(path):
     f = d.get('failing_input')
     print(json.dumps(f or d['broken'], indent=1, default=str)[:3000])
     if f and f.get('kind') == 'c09-convergence':
-        print('now:', osde.c09_gradient_errors(f['sde_type'], f['noise'], f['method'], f['adjoint_method'], f['seed']))
+        print('now:', osde.c09_gradient_errors(f['sde_type'], f['noise'], f['method'], f['adjoint_method'], f['seed'], ks=(3, 9, 10),
+                                                weights=f.get('weights', 'last'), family=f.get('family', 'gbm')))
     return 1
